@@ -1,6 +1,6 @@
 """C20 — existing files are never modified unless overwriting was requested.
 
-Monitor M7 (file-system monitor), three observers per execution of the REAL entry point:
+Monitor M7 (file-system monitor), four observers per execution of the REAL entry point:
   * snapshots   sha256 + size + mtime_ns + ctime_ns + inode + mode of every pre-existing path (whole directory tree
                 for dtr, every numbered `path.N` of multi-frame restart output) before and after the call.  Before the
                 first snapshot the mtime of every pre-existing path is set back to 2001, so a rewrite with identical
@@ -8,6 +8,8 @@ Monitor M7 (file-system monitor), three observers per execution of the REAL entr
   * audit hook  one `sys.addaudithook` listener per worker process records Python-level open (with mode/flags),
                 os.remove/unlink, os.rename/replace, os.truncate, os.rmdir, os.mkdir, os.chmod, os.utime, os.link,
                 os.symlink, shutil.rmtree/copyfile/move events on the case directory while the entry point runs;
+  * fd flags    while an md.open(...) read handle is alive, /proc/self/fdinfo of every descriptor pointing at the file
+                is inspected: a native fopen("rb+") shows as O_RDWR although no byte changes (both tiers);
   * strace      (thorough) a reduced table is executed in a child under `strace -f -e trace=openat,unlink,...`;
                 the log is cut into per-call windows by marker syscalls and searched for write-mode opens, unlinks,
                 renames, truncates of the watched paths (native fopen("wb")/open(O_TRUNC) of xdrfile/dcdplugin/dtrplugin
@@ -64,10 +66,11 @@ RULE = ("case = (extension, pre-existing content class, single/multi-frame new t
 WORKERS = {"quick": 8, "thorough": 16}
 BUDGET = {"quick": 90, "thorough": 600}
 EXHAUSTIVE = {"quick": True, "thorough": True}
-FLOORS = {"quick": {"fo=False.raises": 120, "fo=False.unchanged": 120, "fo=False.audit": 120, "fo=True.loads-new": 120,
-                    "fo=True.size": 120, "fo=True.marker-absent": 30, "read.unchanged": 60, "read.audit": 60},
-          "thorough": {"fo=False.raises": 500, "fo=False.unchanged": 500, "fo=True.loads-new": 500, "read.unchanged": 200,
-                       "strace.fo=False": 20, "strace.read": 20}}
+FLOORS = {"quick": {"fo=False.raises": 110, "fo=False.unchanged": 160, "fo=False.audit": 120, "fo=True.loads-new": 130,
+                    "fo=True.size": 130, "fo=True.marker-absent": 30, "read.unchanged": 100, "read.audit": 80, "read.fdflags": 20},
+          # no floor on the strace monitors: where ptrace is not permitted they are skipped by design
+          "thorough": {"fo=False.raises": 1100, "fo=False.unchanged": 1800, "fo=True.loads-new": 1400, "fo=True.size": 1400,
+                       "read.unchanged": 1300, "read.audit": 1000, "read.fdflags": 200}}
 ASSUMPTIONS = ["fidelity of what is written/loaded is C01's subject: 'loads to the new content' is judged against the same "
                "content written by the same entry point to a fresh path, plus self-identifying frames (new frames start at "
                "0, old ones at 20)",
@@ -140,18 +143,20 @@ def _contents(ext, nf):
     return CONTENTS_FILE
 
 
-def _base_table():
+def _base_table(seed=0):
+    # the table is the same for every seed; the seed only moves the shape of the new trajectory (3..5 frames, 6..9 atoms)
+    multi, na = 3 + seed % 3, NA_NEW + seed % 4
     for ext in EXT:
-        for nf in (1, 3):
+        for nf in (1, multi):
             for content in _contents(ext, nf):
                 for entry in ENTRIES:
                     for fo in (False, True):
-                        yield dict(op="ow", ext=ext, nf=nf, content=content, entry=entry, fo=fo)
+                        yield dict(op="ow", ext=ext, nf=nf, na=na, content=content, entry=entry, fo=fo)
     for ext in OPEN_EXTRA:
-        for nf in (1, 3):
+        for nf in (1, multi):
             for content in CONTENTS_FILE:
                 for fo in (False, True):
-                    yield dict(op="ow", ext=ext, nf=nf, content=content, entry="open", fo=fo)
+                    yield dict(op="ow", ext=ext, nf=nf, na=na, content=content, entry="open", fo=fo)
     for fmt in READ_FMTS:
         for entry in READ_ENTRIES:
             yield dict(op="read", fmt=fmt, entry=entry, src="mdtraj")
@@ -240,7 +245,7 @@ def _strace_table():
 
 def gen_cases(tier, seed):
     i = 0
-    for c in _base_table():
+    for c in _base_table(seed):
         c.update(i=i, seed=seed)
         i += 1
         yield c
@@ -537,7 +542,7 @@ def _old_traj(case, nf_new, na_new, single):
     if content == "same-bytes":
         return files.ident_traj(nf_new, na_new, cell="ortho", f0=0)
     nold = case.get("nold", 12)
-    naold = case.get("naold", NA_OLD_LONG)
+    naold = case.get("naold", na_new + 3)
     if content == "num-longer":
         return files.ident_traj(case.get("nold", nf_new + 2), naold, cell="ortho", f0=F0_OLD)
     if content == "num-width2":
@@ -674,6 +679,17 @@ def _forbidden(events, watched_top):
     return bad
 
 
+def _raised_in_file_class(exc):
+    """is the innermost mdtraj frame of the traceback inside mdtraj/formats (the file class), not trajectory.py?"""
+    import traceback
+    inner = None
+    for fr in traceback.extract_tb(exc.__traceback__):
+        fn = fr.filename.replace(os.sep, "/")
+        if "mdtraj/" in fn and "/vlib/" not in fn:
+            inner = fn
+    return bool(inner) and "mdtraj/formats/" in inner
+
+
 def _run_overwrite(case, ctx, d):
     ext, nf, content, entry, fo = case["ext"], case["nf"], case["content"], case["entry"], case["fo"]
     m = ALLEXT[ext]
@@ -718,7 +734,7 @@ def _run_overwrite(case, ctx, d):
     pre_set = set(pre)
     hit = [o for o in outs if o in pre_set]
     lay = _layout(ext, content)
-    tag = f"{ext}:{'save_' + m['kind'] if entry == 'saver' else entry}:force_overwrite={fo}:{lay}"
+    tag = f"{ext}:{m['saver'] if entry == 'saver' else entry}:force_overwrite={fo}:{lay}"
     what = f"{ext} {entry}(force_overwrite={fo}), {nf} frame(s) x {na} atoms over pre-existing '{content}' ({len(pre)} path(s))"
 
     if fo is False:
@@ -745,8 +761,8 @@ def _run_overwrite(case, ctx, d):
         bad = _forbidden(events, pre)
         if changes:
             fields = sorted({f for _, f in changes})
-            ctx.violation("fo=False.unchanged", f"{tag}:modified[{'+'.join(fields)}]",
-                          f"{what}: pre-existing path changed ({'; '.join(os.path.basename(p) + ':' + f for p, f in changes[:6])}); call "
+            ctx.violation("fo=False.unchanged", f"{tag}:modified",
+                          f"{what}: pre-existing path changed [{'+'.join(fields)}] ({'; '.join(os.path.basename(p) + ':' + f for p, f in changes[:6])}); call "
                           f"{'raised ' + type(raised).__name__ if raised else 'did not raise'}", events=[list(e) for e in events[:12]])
         else:
             ctx.ok("fo=False.unchanged", len(before))
@@ -795,6 +811,9 @@ def _run_overwrite(case, ctx, d):
     ctx.observe("replace_method_python_level", "+".join(how) if how else "native-only")
     if raised is not None:
         unchanged = not _diff(before)
+        if _raised_in_file_class(raised):
+            # the refusal comes from the format's file class, which all three entry points construct: one mechanism, one key
+            tag = f"{ext}:fileobject:force_overwrite={fo}:{lay}"
         ctx.violation("fo=True.no-error", f"{tag}:raises:{type(raised).__name__}",
                       f"{what}: overwriting was requested but the call raised {type(raised).__name__}: {str(raised)[:160]}; old content "
                       f"{'left intact' if unchanged else 'MODIFIED'}")
@@ -917,6 +936,24 @@ def _read_file(case, d):
     return path, fmt, (None if m.get("self_top") else t.topology), t.n_frames, 12
 
 
+def _fd_scan(path):
+    """open file descriptors of this process that point at `path` (or into it, for dtr) with their open flags:
+    sees native fopen()/open() handles that the audit hook cannot, as long as the handle is alive"""
+    out = []
+    rp = os.path.realpath(path)
+    for fd in os.listdir("/proc/self/fd"):
+        try:
+            t = os.readlink("/proc/self/fd/" + fd)
+            if t == rp or t.startswith(rp + os.sep):
+                with open("/proc/self/fdinfo/" + fd) as f:
+                    for line in f:
+                        if line.startswith("flags:"):
+                            out.append(int(line.split()[1], 8))
+        except OSError:
+            continue
+    return out
+
+
 # The TRR reader overflows a heap buffer when stride > 1 is combined with an atom subset (known finding of C02; it
 # corrupts the heap of the worker, which then dies at an unrelated case).  That option combination is therefore not
 # generated for trr here; stride and atom_indices are exercised separately.
@@ -932,6 +969,7 @@ def _read_entry(case, path, ext, top, n, na, note):
     kind = ALLEXT[ext]["kind"] if ext in ALLEXT else ext
     if entry.startswith("open-") and kind in ("pdb", "pdbx"):
         f = md.open(path)  # the PDB/PDBx file object parses in its constructor and exposes positions/topology
+        note(("fd", _fd_scan(path)))
         try:
             f.positions, f.topology, f.unitcell_lengths
             len(f) if entry == "open-len" else None
@@ -941,6 +979,7 @@ def _read_entry(case, path, ext, top, n, na, note):
         return
     if entry.startswith("open-") and kind in ("rst7", "ncrst") and entry != "open-read_as_traj":
         f = md.open(path)  # restart file objects: read(atom_indices=None) only, no cursor
+        note(("fd", _fd_scan(path)))
         f.read()
         if entry == "open-cursor":
             f.read(atom_indices=np.array([0, 1]))
@@ -978,10 +1017,12 @@ def _read_entry(case, path, ext, top, n, na, note):
         md.load_topology(path)
     elif entry == "open-read":
         with md.open(path, **okw) as f:
+            note(("fd", _fd_scan(path)))
             f.read()
     elif entry == "open-cursor":
         with md.open(path, **okw) as f:
             f.read(1)
+            note(("fd", _fd_scan(path)))
             f.seek(0)
             f.tell()
             f.read()
@@ -993,13 +1034,16 @@ def _read_entry(case, path, ext, top, n, na, note):
     elif entry == "open-len":
         with md.open(path, **okw) as f:
             len(f)
+            note(("fd", _fd_scan(path)))
             f.read(1)
     elif entry == "open-read_as_traj":
         with md.open(path, **okw) as f:
+            note(("fd", _fd_scan(path)))
             f.read_as_traj(top) if top is not None and kind != "h5" else f.read_as_traj()
     elif entry == "open-noclose":
         f = md.open(path, **okw)
         f.read(1)
+        note(("fd", _fd_scan(path)))
         del f
     else:
         raise AssertionError(entry)
@@ -1037,8 +1081,8 @@ def _run_read(case, ctx, d):
     changes = _diff(before)
     if changes:
         fields = sorted({f for _, f in changes})
-        ctx.violation("read.unchanged", f"{lab}:{ename}:file-modified[{'+'.join(fields)}]",
-                      f"reading {lab} through {entry} changed the file: {[(os.path.basename(p), f) for p, f in changes[:6]]}")
+        ctx.violation("read.unchanged", f"{lab}:{ename}:file-modified",
+                      f"reading {lab} through {entry} changed the file [{'+'.join(fields)}]: {[(os.path.basename(p), f) for p, f in changes[:6]]}")
     else:
         ctx.ok("read.unchanged", len(before))
     bad = _forbidden(events, pre)
@@ -1047,6 +1091,15 @@ def _run_read(case, ctx, d):
                       f"reading {lab} through {entry} performed a write-ish operation on the file: {bad[:4]}")
     else:
         ctx.ok("read.audit")
+    fds = [fl for x in seen if isinstance(x, tuple) and x[0] == "fd" for fl in x[1]]
+    if entry.startswith("open-"):
+        wr = [fl for fl in fds if (fl & os.O_ACCMODE) != os.O_RDONLY or fl & os.O_APPEND]
+        if wr:
+            ctx.violation("read.fdflags", f"{lab}:{ename}:descriptor-open-for-writing",
+                          f"while a {lab} read handle ({entry}) is alive the process holds the file open with flags {[oct(x) for x in wr]}")
+        elif fds:
+            ctx.ok("read.fdflags", len(fds))
+        ctx.observe("live_descriptors_on_the_file_while_handle_open", min(len(fds), 9))
     nr = sum(1 for e, p, _ in events if e == "open-read" and (p == path or p.startswith(path + os.sep)))
     ctx.observe("python_level_read_opens_of_the_file", min(nr, 9))
     created = sorted(set(os.listdir(d)) - set(listing0))
@@ -1115,7 +1168,10 @@ def _run_strace(case, ctx):
         p = subprocess.run(cmd, env=env, stdout=subprocess.PIPE, stderr=subprocess.STDOUT, text=True, timeout=1500,
                            cwd=os.path.dirname(os.path.dirname(os.path.dirname(os.path.abspath(__file__)))))
         if p.returncode != 0 or not os.path.exists(res):
-            ctx.violation("strace", "strace-child-failed", f"the strace child ended with rc={p.returncode}: {p.stdout[-400:]}")
+            # the child's cases are a subset of the table the plain workers run, so a crash of mdtraj itself surfaces there
+            ctx.skip("strace", f"the strace child did not complete (rc={p.returncode}); strace verdicts not available for this slice")
+            ctx.note(p.stdout[-300:])
+            ctx.observe("strace", "child-failed")
             return
         with open(res) as f:
             out = json.load(f)
@@ -1164,7 +1220,7 @@ def _run_strace(case, ctx):
             if bad:
                 if c["op"] == "ow":
                     m = ALLEXT[c["ext"]]
-                    key = (f"{c['ext']}:{'save_' + m['kind'] if c['entry'] == 'saver' else c['entry']}:force_overwrite=False:"
+                    key = (f"{c['ext']}:{m['saver'] if c['entry'] == 'saver' else c['entry']}:force_overwrite=False:"
                            f"{_layout(c['ext'], c['content'])}:strace[{'+'.join(sorted({b[0] for b in bad}))}]")
                 else:
                     key = f"{c['fmt']}:{c['entry']}:strace[{'+'.join(sorted({b[0] for b in bad}))}]"
